@@ -5,8 +5,9 @@
 
 from __future__ import annotations
 
+from collections.abc import Sequence
 from http import HTTPStatus
-from typing import Any
+from typing import TYPE_CHECKING, Any
 
 import pyarrow as pa
 
@@ -20,6 +21,10 @@ from vgi_rpc._codec import (
     parse_encoding_list,
 )
 from vgi_rpc.rpc import _EMPTY_SCHEMA
+
+if TYPE_CHECKING:
+    from vgi_rpc.log import Message
+    from vgi_rpc.rpc import AnnotatedBatch
 
 __all__ = [
     "DecompressionError",
@@ -196,9 +201,21 @@ _VGI_LOGO_HTML = """\
 class _RpcHttpError(Exception):
     """Internal exception for HTTP-layer errors with status codes."""
 
-    __slots__ = ("cause", "schema", "status_code")
+    __slots__ = ("cause", "log_batches", "logs", "schema", "status_code")
 
-    def __init__(self, cause: BaseException, *, status_code: HTTPStatus, schema: pa.Schema = _EMPTY_SCHEMA) -> None:
+    def __init__(
+        self,
+        cause: BaseException,
+        *,
+        status_code: HTTPStatus,
+        schema: pa.Schema = _EMPTY_SCHEMA,
+        logs: Sequence[Message] = (),
+        log_batches: Sequence[AnnotatedBatch] = (),
+    ) -> None:
         self.cause = cause
         self.status_code = status_code
         self.schema = schema
+        # Client-directed logs emitted before the failure; they are written
+        # ahead of the error batch so a failing call still delivers them.
+        self.logs = logs
+        self.log_batches = log_batches
